@@ -527,6 +527,56 @@ pub fn run(tier: Tier) -> i32 {
         });
         template_strings += 65536;
     }
+    // ---- scale lane: an escape (and a raw multi-octet character) at every offset of long values,
+    // long attribute descriptions and rules, many substring parts, wide and deep composites
+    let mut scale_strings = 0u64;
+    {
+        let mut cases: Vec<Vec<u8>> = vec![];
+        for k in 0..=140usize {
+            for tail in [0usize, 1, 70] {
+                for esc in ["\\2a", "\\5C", "é", "\\00\\ff"] {
+                    cases.push(format!("(cn={}{}{})", "a".repeat(k), esc, "b".repeat(tail)).into_bytes());
+                }
+            }
+            cases.push(format!("(cn={}*{}\\28*)", "p".repeat(k), "q".repeat(140 - k)).into_bytes());
+            cases.push(format!("({}{}=v)", "a", "b".repeat(k)).into_bytes());
+            cases.push(format!("(cn;{}x=v)", "o".repeat(k)).into_bytes());
+            cases.push(format!("(cn:{}r:=v)", "m".repeat(k)).into_bytes());
+            cases.push(format!("(1.2.{}=v)", "7".repeat(k + 1)).into_bytes());
+        }
+        for n in [1usize, 2, 5, 9, 17, 33, 65, 129, 257, 1000] {
+            cases.push(format!("(cn=i{}*f)", (0..n).map(|j| format!("*a{}", j)).collect::<String>()).into_bytes());
+            cases.push(format!("(&{})", (0..n).map(|j| format!("(a{}=v{})", j % 10, j)).collect::<String>()).into_bytes());
+            cases.push(format!("(|{})", (0..n).map(|j| format!("(!(a=v{}))", j)).collect::<String>()).into_bytes());
+        }
+        for d in [1usize, 2, 31, 32, 33, 63, 64, 65, 127, 128, 129, 254, 255, 256, 257, 300, 1000] {
+            cases.push(format!("{}(cn=x){}", "(!".repeat(d), ")".repeat(d)).into_bytes());
+            cases.push(format!("{}(cn=x){}", "(&".repeat(d), ")".repeat(d)).into_bytes());
+            cases.push(format!("{}(cn=x){}", "(|(a=b)".repeat(d), ")".repeat(d)).into_bytes());
+            // one parenthesis short / too many
+            cases.push(format!("{}(cn=x){}", "(!".repeat(d), ")".repeat(d - 1)).into_bytes());
+            cases.push(format!("{}(cn=x){}", "(!".repeat(d), ")".repeat(d + 1)).into_bytes());
+        }
+        for n in [100usize, 1000, 5000, 65535, 65536, 100000] {
+            cases.push(format!("(description={})", "v".repeat(n)).into_bytes());
+            cases.push(format!("(description={}\\2a)", "v".repeat(n)).into_bytes());
+        }
+        scale_strings = cases.len() as u64;
+        // (deep recursion in both parsers: a worker thread with a roomy stack)
+        let cases = std::sync::Arc::new(cases);
+        std::thread::scope(|sc| {
+            std::thread::Builder::new()
+                .stack_size(256 * 1024 * 1024)
+                .spawn_scoped(sc, || {
+                    for s in cases.iter() {
+                        judge_string(&rep, s, &c, "scale");
+                    }
+                })
+                .expect("scale thread")
+                .join()
+                .expect("scale lane");
+        });
+    }
     // real-world shaped strings that the bounded alphabets cannot reach
     for s in [
         "(entryDN:dnSubtreeMatch:=dc=x)",
@@ -564,12 +614,13 @@ pub fn run(tier: Tier) -> i32 {
     let cvr = cov(vec![
         ("evaluations", json!(c.evals.load(Ordering::Relaxed))),
         ("distinct_nontrivial", json!(c.accepted_either.load(Ordering::Relaxed))),
-        ("rule", json!("AST lane: every item AST over the attribute/rule/value alphabets rendered with every per-byte escaping choice {raw, \\xx, \\XX}, with and without outer parentheses, plus depth-2 composites; string lane: every byte string over the stated alphabets up to the stated length (distinct by construction); template lane: filter templates with a hole at every kind of grammar position (attribute, option, OID arc, matching rule, value, both escape digits, operators, before/after/between filters, bare items), the hole filled with every byte 0..=255, two-hole templates with every pair of bytes. non-trivial = accepted by the reference recogniser or by the real parser")),
+        ("rule", json!("AST lane: every item AST over the attribute/rule/value alphabets rendered with every per-byte escaping choice {raw, \\xx, \\XX}, with and without outer parentheses, plus depth-2 composites; string lane: every byte string over the stated alphabets up to the stated length (distinct by construction); template lane: filter templates with a hole at every kind of grammar position (attribute, option, OID arc, matching rule, value, both escape digits, operators, before/after/between filters, bare items), the hole filled with every byte 0..=255, two-hole templates with every pair of bytes; scale lane: escapes and multi-octet characters at every offset 0..=140 of long values, long descriptions/options/rules/OID arcs, 1..1000 substring parts and components, nesting 1..1000 deep (balanced, one short, one too many), values to 100000 octets. non-trivial = accepted by the reference recogniser or by the real parser")),
         ("ast_items", json!(ast_items)),
         ("ast_renderings_checked", json!(ast_evals)),
         ("composites", json!(composites.load(Ordering::Relaxed))),
         ("string_lanes", json!(string_counts)),
         ("template_strings", json!(template_strings)),
+        ("scale_strings", json!(scale_strings)),
         ("templates", json!({"one_hole_all_256_bytes": one_hole.len(), "two_holes_all_65536_pairs": two_hole.len()})),
         ("accepted_by_reference", json!(c.ref_accepted.load(Ordering::Relaxed))),
         ("accepted_by_real_parser", json!(c.real_accepted.load(Ordering::Relaxed))),
